@@ -27,7 +27,7 @@ from antlr4 import InputStream, CommonTokenStream
 
 from explorerscript.antlr.SsbScriptLexer import SsbScriptLexer
 from explorerscript.antlr.SsbScriptParser import SsbScriptParser
-from explorerscript.error import ParseError
+from explorerscript.error import ParseError, SsbCompilerError
 from explorerscript.source_map import SourceMap
 from explorerscript.ssb_converting.compiler.label_jump_to_remover import OpsLabelJumpToRemover
 from explorerscript.ssb_converting.ssb_data_types import SsbOperation, SsbRoutineInfo
@@ -92,7 +92,16 @@ class SsbScriptSsbCompiler:
         parser.addParseListener(compiler_listener)
 
         # Start Parsing
-        parser.start()
+        try:
+            parser.start()
+        except SsbCompilerError:
+            raise
+        except Exception:
+            # The compiler listener runs while the parser is still at work. If the source has syntax errors, it sees
+            # incomplete parse trees and may trip over them: report the syntax error then, it is the cause.
+            if len(error_listener.syntax_errors) > 0:
+                raise ParseError(error_listener.syntax_errors[0])
+            raise
 
         # Look for errors
         if len(error_listener.syntax_errors) > 0:
